@@ -32,7 +32,7 @@ TraceFile ==
      /\ lastSeq' = Put(lastSeq, e.worker, e.seq)
      /\ lastBuf' = Put(lastBuf, e.worker, e.buf_len)
      /\ wstate' = Put(wstate, e.path, <<"open", 0>>)
-     /\ (~SeqOk(e)) => Report("VIOL", [clause |-> "event_order", at |-> l])
+     /\ (~SeqOk(e)) => Report("DRIFT", [clause |-> "event_order", at |-> l])
      \* the buffer is the one this worker used last, or a fresh / already cleared one (a new split of the work, a file that failed to open)
      /\ (e.buf_before_clear \notin {0, Get(lastBuf, e.worker, 0)}) => Report("DRIFT", [clause |-> "buffer_not_reused_as_modelled", at |-> l])
      /\ (e.buf_len # e.file_len) => Report("VIOL", [clause |-> "stale_bytes_in_buffer", at |-> l, path |-> e.path, buf_len |-> e.buf_len, file_len |-> e.file_len])
@@ -44,7 +44,9 @@ TraceWrite(ev, from(_, _), to(_)) ==
      /\ lastSeq' = Put(lastSeq, e.worker, e.seq)
      /\ UNCHANGED lastBuf
      /\ wstate' = Put(wstate, e.path, to(e))
-     /\ (~SeqOk(e) \/ ~from(Get(wstate, e.path, <<"none", 0>>), e)) => Report("VIOL", [clause |-> "write_sequence", at |-> l, ev |-> ev, path |-> e.path])
+     \* (the order of the write steps is how the code reaches C16 / C18, not what they demand: a deviation is model drift; its
+     \* consequences - stale tails, emptied files - are observed on the files themselves)
+     /\ (~SeqOk(e) \/ ~from(Get(wstate, e.path, <<"none", 0>>), e)) => Report("DRIFT", [clause |-> "write_sequence", at |-> l, ev |-> ev, path |-> e.path])
 
 TraceNext ==
   \/ TraceReset \/ TraceFile
